@@ -47,11 +47,26 @@ def gen_algo_case(rng, ctx, classes="D1 D2 D3 D3 D4 D5 D6 D7 D8 D9 D10 D10", sch
             "dcls": cls, "scls": scls}
 
 
+INSTANCES = {}
+
+
+def get_instance(cfg, libseed):
+    """a user typically builds one algorithm object and applies it to many datasets and schemes: two thirds of the
+    runs reuse the instance built earlier in this process (state leaking from one call into the next then shows up in
+    the oracles), one third builds a fresh one"""
+    if libseed % 3 != 0 and cfg in INSTANCES:
+        return "ok", INSTANCES[cfg]
+    st, alg = call(libx.make_algorithm, cfg)
+    if st == "ok":
+        INSTANCES[cfg] = alg
+    return st, alg
+
+
 def run_config(cfg, dataset, scheme, one, libseed):
     """returns (status, consensus|exception, ilps_built)"""
     libx.seed_library(libseed)
     before = ilp_count()
-    st, alg = call(libx.make_algorithm, cfg)
+    st, alg = get_instance(cfg, libseed)
     if st == "exc":
         return "ctor-exc", alg, 0
     st, cons = call(alg.compute_consensus_rankings, dataset, scheme, one)
